@@ -701,3 +701,34 @@ Proof.
     pose proof (get_int16_safe value Hv) as S3. destruct (get_int16 value) as [vv v1|? ?|?|?]; cbn [safe fst no_crash] in *; try contradiction; try exact I.
     pose proof (get_int32_safe v1 (okstep_inb _ _ S3 Hv)) as S4. destruct (get_int32 v1) as [ep v2|? ?|?|?]; cbn [safe fst no_crash] in *; try contradiction; exact I.
 Qed.
+
+(* ---------------------------------------------------------------- Broker.responseReceiver: the body buffer *)
+Lemma response_header_decode_inv version d l c d' : response_header_decode version d = Ok (l, c) d' -> 4 < l <= MAX_RESPONSE_SIZE.
+Proof.
+  unfold response_header_decode. destruct (get_int32 d) as [l0 d1|? ?|?|?]; cbn [bind]; try discriminate.
+  destruct ((l0 <=? 4) || (MAX_RESPONSE_SIZE <? l0)) eqn:E; [discriminate|].
+  apply orb_false_iff in E as (E1 & E2). apply Z.leb_gt in E1. apply Z.ltb_ge in E2.
+  destruct (get_int32 d1) as [c0 d2|? ?|?|?]; try discriminate.
+  - destruct (1 <=? version).
+    + destruct (get_empty_tagged d2) as [? ?|? ?|?|?]; cbn [bind]; try discriminate. intros [= <- _ _]. lia.
+    + intros [= <- _ _]. lia.
+  - destruct (1 <=? version); [destruct (get_empty_tagged d0) as [? ?|? ?|?|?]; cbn [bind]; discriminate | discriminate].
+Qed.
+
+(* after an accepted header the size handed to make is never negative (and at most MaxResponseSize) *)
+Theorem response_receive_safe version corr d : inb d ->
+  match response_receive version corr d with
+  | Ok size _ => 0 <= size <= MAX_RESPONSE_SIZE
+  | Err _ _ => True
+  | Panic _ => False
+  | Alloc _ => False
+  end.
+Proof.
+  intros Hd. unfold response_receive. pose proof (response_header_safe version d Hd) as S.
+  destruct (response_header_decode version d) as [[l c] d1|e d1|?|?] eqn:E; cbn [bind safe] in *; try contradiction; [|exact I].
+  apply response_header_decode_inv in E. unfold MAX_RESPONSE_SIZE in *.
+  destruct (negb (off d1 =? len (raw d1))); [exact I|]. destruct (negb (snd (l, c) =? corr)); [exact I|]. cbn [fst].
+  assert (Hs : i32 (i32 (l - header_length version) + 4) = l - header_length version + 4 /\ 8 <= header_length version <= 9).
+  { unfold header_length. destruct (version <? 1); unfold i32, two32; split; lia. }
+  destruct Hs as (-> & Hh). replace (l - header_length version + 4 <? 0) with false by (symmetry; apply Z.ltb_ge; lia). lia.
+Qed.
